@@ -53,7 +53,7 @@ Proof. vm_compute. reflexivity. Qed.
 
 (* ------------------------------------------------------------------------------------------------
    POSITIVE part, proved without bound for the expression fragment of coq/model/TokPrint.v
-   (identifiers, integer literals, prefix operators, binary infix operators, any nesting):
+   (one-token operands: identifiers, integer, float and string literals, true, false, break, continue; prefix operators; binary infix operators; any nesting):
    the parser, run on the token sequence body(e) - the tokens of the formatter's output for e, with
    parentheses exactly where PrefixExpression/InfixExpression.PrettyPrint put them - returns exactly
    the tree of e, with no error and no continuation request, whatever the layout flags of the tokens
